@@ -17,7 +17,7 @@ def one(d):
         if b.returncode != 0:
             return os.path.basename(d), "NOBUILD", b.stderr[-300:]
         shutil.copy(V + "/known_findings.json", v)
-        r = subprocess.run([V + "/bin/nvet", "-prop", "all", "-repo", w, "-verif", v], env=ENV, capture_output=True, text=True)
+        r = subprocess.run([os.environ.get("NVET_BIN", V + "/bin/nvet"), "-prop", "all", "-repo", w, "-verif", v], env=ENV, capture_output=True, text=True)
         rules = sorted(set(re.findall(r"^(?:VIOLATION|UNDECIDED): \S+ (\S+) ", r.stdout, re.M)))
         return os.path.basename(d), "OK" if not rules and r.returncode == 0 else "FALSE-ALARM", " ".join(rules)
     finally:
